@@ -970,6 +970,59 @@ pub fn child18(seed: u64, idx: u64) -> Value {
                     });
                 }
             }
+            8 if rng.chance(1, 2) => {
+                // Frame::new with every channel assignment and mixed subframe kinds at the widths
+                // the assignment implies (side channels: +1): subframes that do not end on a byte
+                // boundary are followed by others inside one frame
+                let bps = *rng.pick(&[8usize, 16, 24, 12, 20]);
+                let n = *rng.pick(&[16usize, 33, 64, 192]);
+                let assign = match rng.usize_below(5) {
+                    0 => ChannelAssignment::LeftSide,
+                    1 => ChannelAssignment::RightSide,
+                    2 => ChannelAssignment::MidSide,
+                    _ => ChannelAssignment::Independent(1 + rng.usize_below(4) as u8),
+                };
+                let nch = match &assign {
+                    ChannelAssignment::Independent(c) => *c as usize,
+                    _ => 2,
+                };
+                let mut subs: Vec<SubFrame> = vec![];
+                let mut kinds = String::new();
+                for ch in 0..nch {
+                    let w = bps + assign.bits_per_sample_offset(ch);
+                    let lim = 1i64 << (w - 1);
+                    let kind = rng.usize_below(3);
+                    kinds.push_str(["C", "V", "F"][kind]);
+                    let sf: Option<SubFrame> = match kind {
+                        0 => Constant::new(n, rng.range(-lim, lim - 1) as i32, w).ok().map(Into::into),
+                        1 => Verbatim::new(&(0..n).map(|_| rng.range(-lim, lim - 1) as i32).collect::<Vec<_>>(), w).ok().map(Into::into),
+                        _ => {
+                            let order = 1 + rng.usize_below(4);
+                            let warm: Vec<i32> = (0..order).map(|_| rng.range(-lim, lim - 1) as i32).collect();
+                            let p = rng.usize_below(6) as u8;
+                            let mut q = vec![0u32; n];
+                            let mut r = vec![0u32; n];
+                            for t in order..n {
+                                q[t] = rng.usize_below(3) as u32;
+                                r[t] = (rng.next_u64() as u32) & ((1u32 << p) - 1);
+                            }
+                            Residual::new(0, n, order, &[p], &q, &r).ok().and_then(|res| FixedLpc::new(&warm, res, w).ok()).map(Into::into)
+                        }
+                    };
+                    if let Some(sf) = sf {
+                        subs.push(sf);
+                    }
+                }
+                desc = format!("Frame::new(header(block={n}, {assign:?}, bps={bps}), subframes {kinds})");
+                let Ok(h) = FrameHeader::new(n, assign, bps, 44100, FrameOffset::Frame(rng.usize_below(300) as u32)) else { return };
+                if let Ok(c) = Frame::new(h, subs.into_iter()) {
+                    let si = StreamInfo::new(44100, nch, bps).unwrap();
+                    post!("Frame", c, |b: &[u8], _bits: usize| {
+                        let mut p = flacenc::component::parser::frame::<ByteErr<'_>>(&si, true);
+                        p(b).ok().map(|(_, x)| (format!("{x:?}"), enc::to_bytes(&x).unwrap_or_default()))
+                    });
+                }
+            }
             8 => {
                 // Frame::new: header vs subframes (count, block size, width)
                 let hch = 1 + rng.usize_below(4);
